@@ -81,6 +81,9 @@ type cacheEnv struct {
 	panicAt int64
 	calls   int64
 	fired   bool
+	// uptime > 0: the store's logical clock is advanced by that much before
+	// the first call, as if the cache had already served that many accesses.
+	uptime int64
 }
 
 // injectedPanic is the value a faulty user callback panics with.
@@ -130,6 +133,9 @@ type cacheMaker func(e *cacheEnv) cacheAPI
 
 func makeReal(e *cacheEnv) cacheAPI {
 	cfg := cache.LRU[int, int]().WithSize(e.sizeOf).OnEvict(e.onEvict)
+	if e.uptime > 0 {
+		cache.VerifAdvanceClock(cfg, e.uptime)
+	}
 	if e.yields {
 		cfg = cache.VerifWrapStore(cfg, func(s cache.Store[int, int]) cache.Store[int, int] { return &yieldStore{s} })
 	}
@@ -138,6 +144,9 @@ func makeReal(e *cacheEnv) cacheAPI {
 
 func makeTwin(e *cacheEnv) cacheAPI {
 	cfg := cachefix.LRU[int, int]().WithSize(e.sizeOf).OnEvict(e.onEvict)
+	if e.uptime > 0 {
+		cachefix.VerifAdvanceClock(cfg, e.uptime)
+	}
 	if e.yields {
 		cfg = cachefix.VerifWrapStore(cfg, func(s cachefix.Store[int, int]) cachefix.Store[int, int] { return &yieldStore{s} })
 	}
